@@ -37,9 +37,9 @@ theorem glue_ok_iff (n : Nat) (r a : List Nat) :
     · intro e; cases e
     · intro e; exact absurd e.1 h
 
-/-- T18.2 … and PANICS iff `len > BYTES`: the negation of totality (DESIGN §7 row 6). The glue never
-    returns an error. -/
-theorem glue_panics_iff (n : Nat) (r : List Nat) : uintFromUintRef n r = .panic ↔ 8 * n < r.length := by
+/-- T18.2 … returns an ERROR iff `len > BYTES` (the length check added by the repair
+    `fix: DER decoding of an INTEGER longer than the target Uint panicked`) … -/
+theorem glue_err_iff (n : Nat) (r : List Nat) : uintFromUintRef n r = .err ↔ 8 * n < r.length := by
   by_cases h : r.length ≤ 8 * n
   · rw [uintFromUintRef_fits h]
     constructor
@@ -48,17 +48,15 @@ theorem glue_panics_iff (n : Nat) (r : List Nat) : uintFromUintRef n r = .panic 
   · rw [uintFromUintRef_oversize (by omega)]
     exact ⟨fun _ => by omega, fun _ => rfl⟩
 
-/-- T18.2w witness matching the observed panic: `U64::from_der(02 09 01 00×8)` (the DER encoding of
-    `2^64`) panics. -/
-theorem der_oversize_panics_witness :
-    derFromDer 1 [2, 9, 1, 0, 0, 0, 0, 0, 0, 0, 0] = .panic := by decide
+/-- T18.2' … and never panics: behind the length check the copy step of T18.1 is always defined.
+    (Before the repair this was false: the glue panicked exactly for `len > BYTES`, DESIGN §7 row 6.) -/
+theorem glue_never_panics (n : Nat) (r : List Nat) : uintFromUintRef n r ≠ .panic :=
+  uintFromUintRef_ne_panic n r
 
-/-
-  FULL STATEMENT (unproved — it is FALSE of the code as written, see `der_oversize_panics_witness`):
-    theorem der_fail_closed (n : Nat) (bs : List Nat) : derFromDer n bs ≠ .panic
-  What holds instead is `der_panics_iff` (the exact set of panicking inputs) and, for the
-  specification decoder `derSpecFromDer` (L0 of the correspondence run), `derSpec_never_panics`.
--/
+/-- T18.2w the former panic witness `U64::from_der(02 09 01 00×8)` (the DER encoding of `2^64`) is
+    now rejected with an error (corpus/C18.txt keeps the line). -/
+theorem der_oversize_rejected_witness :
+    derFromDer 1 [2, 9, 1, 0, 0, 0, 0, 0, 0, 0, 0] = .err := by decide
 
 /-! ## DER: `from_der` -/
 
@@ -96,33 +94,37 @@ theorem der_accept_iff {n : Nat} {bs : List Nat} (hb : Bytes bs) (a : List Nat) 
     rw [uintFromUintRef_fits hf, ha, (derMagnitude_spec hc).2.2.1]
     rfl
 
-/-- T18.4 the panic set, exactly: a well-formed header and canonical content whose magnitude has
-    more octets than the type (whatever follows it — the panic precedes the trailing-data check). -/
-theorem der_panics_iff {n : Nat} {bs : List Nat} (hb : Bytes bs) :
-    derFromDer n bs = .panic ↔
-      ∃ c tail, bs = 2 :: (derLengthEncode c.length ++ (c ++ tail)) ∧ bs.length ≤ derMaxLen ∧ DerCanon c ∧
-        8 * n < (derMagnitude c).length := by
-  constructor
-  · intro h
-    obtain ⟨c, tail, e, hl, hc⟩ := derFromDer_not_err hb (by rw [h]; intro g; cases g)
-    have hl' := hl
-    rw [e] at hl' h
-    rw [derFromDer_form hc hl'] at h
-    refine ⟨c, tail, e, hl, hc, ?_⟩
-    unfold derAfterHeader at h
-    by_cases hf : (derMagnitude c).length ≤ 8 * n
-    · rw [uintFromUintRef_fits hf] at h
-      simp only at h
-      split at h <;> cases h
-    · omega
-  · rintro ⟨c, tail, e, hl, hc, hf⟩
-    rw [e] at hl ⊢
-    rw [derFromDer_form hc hl]
-    unfold derAfterHeader
-    rw [uintFromUintRef_oversize hf]
+/-- T18.4 FAIL CLOSED (full statement; false before the repair of the glue): `from_der` never
+    panics, for any width and ANY input list (octets or not). -/
+theorem der_fail_closed (n : Nat) (bs : List Nat) : derFromDer n bs ≠ .panic := by
+  cases bs with
+  | nil => intro e; simp [derFromDer] at e
+  | cons t r1 =>
+    rw [derFromDer_cons]
+    split
+    · intro e; cases e
+    · split
+      · intro e; cases e
+      · split
+        · intro e; cases e
+        · split
+          · intro e; cases e
+          · split
+            · split <;> (intro e; cases e)
+            · exact derDecodeValue_ne_panic _ _ _
+
+/-- T18.4' the inputs that used to panic, exactly — a well-formed header and canonical content whose
+    magnitude has more octets than the type, whatever follows — are errors. -/
+theorem der_oversize_is_err {n : Nat} {c tail : List Nat} (hc : DerCanon c)
+    (hl : (2 :: (derLengthEncode c.length ++ (c ++ tail))).length ≤ derMaxLen)
+    (hf : 8 * n < (derMagnitude c).length) :
+    derFromDer n (2 :: (derLengthEncode c.length ++ (c ++ tail))) = .err := by
+  rw [derFromDer_form hc hl]
+  unfold derAfterHeader
+  rw [uintFromUintRef_oversize hf]
 
 /-- T18.4v oversize in terms of the VALUE: for canonical content, "more than `BYTES` magnitude
-    octets" is "value `≥ 2^BITS`" (so the panic is reachable only by integers that do not fit). -/
+    octets" is "value `≥ 2^BITS`" (the length check rejects exactly the integers that do not fit). -/
 theorem der_oversize_iff_value {n : Nat} (hn : 0 < n) {c : List Nat} (hc : DerCanon c) (hb : Bytes c) :
     8 * n < (derMagnitude c).length ↔ 256 ^ (8 * n) ≤ beVal c := by
   obtain ⟨m1, m2, m3, _, _⟩ := derMagnitude_spec hc
@@ -218,62 +220,60 @@ theorem derSpec_ok_iff {n : Nat} (hn : 0 < n) {bs : List Nat} (hb : Bytes bs) (a
   unfold derSpecFromDer failClosed
   split <;> simp_all
 
-/-- T18.8c … and differs from the code as written exactly on the panicking inputs. -/
-theorem derSpec_eq_model_or_panic (n : Nat) (bs : List Nat) :
-    (derFromDer n bs = .panic ∧ derSpecFromDer n bs = .err) ∨ derSpecFromDer n bs = derFromDer n bs := by
+/-- T18.8c … and, since the repair, IS the code as written. -/
+theorem derSpec_eq_model (n : Nat) (bs : List Nat) : derSpecFromDer n bs = derFromDer n bs := by
   unfold derSpecFromDer failClosed
   split
-  · next h => exact Or.inl ⟨h, rfl⟩
-  · exact Or.inr rfl
+  · next h => exact absurd h (der_fail_closed n bs)
+  · rfl
 
 /-! ## DER: the other entry points -/
 
 /-- T18.9 `TryFrom<AnyRef>`: accepted iff the tag is INTEGER and the content is canonical and fits;
-    panics iff it is canonical and does not fit. -/
+    never a panic. -/
 theorem der_any_iff (n tag : Nat) (c a : List Nat) :
     (derFromAny n tag c = .ok a ↔
       tag = 2 ∧ c.length ≤ derMaxLen ∧ DerCanon c ∧ (derMagnitude c).length ≤ 8 * n ∧ a = toLimbs n (beVal c)) ∧
-    (derFromAny n tag c = .panic ↔
-      tag = 2 ∧ c.length ≤ derMaxLen ∧ DerCanon c ∧ 8 * n < (derMagnitude c).length) := by
+    derFromAny n tag c ≠ .panic := by
   unfold derFromAny
   by_cases h0 : derMaxLen < c.length
   · rw [if_pos h0]
-    refine ⟨⟨fun e => (by cases e), fun e => by omega⟩, ⟨fun e => (by cases e), fun e => by omega⟩⟩
+    exact ⟨⟨fun e => (by cases e), fun e => by omega⟩, fun e => by cases e⟩
   · rw [if_neg h0]
     by_cases ht : tag ≠ 2
     · rw [if_pos ht]
-      refine ⟨⟨fun e => (by cases e), fun e => absurd e.1 ht⟩, ⟨fun e => (by cases e), fun e => absurd e.1 ht⟩⟩
+      exact ⟨⟨fun e => (by cases e), fun e => absurd e.1 ht⟩, fun e => by cases e⟩
     · rw [if_neg ht]
       have ht' : tag = 2 := Decidable.not_not.mp ht
+      refine ⟨?_, derDecodeValue_ne_panic _ _ _⟩
       by_cases hc : DerCanon c
-      · rw [derDecodeValue_canon hc (by omega), glue_ok_iff, glue_panics_iff, (derMagnitude_spec hc).2.2.1]
-        exact ⟨⟨fun e => ⟨ht', by omega, hc, e.1, e.2⟩, fun e => ⟨e.2.2.2.1, e.2.2.2.2⟩⟩,
-               ⟨fun e => ⟨ht', by omega, hc, e⟩, fun e => e.2.2.2⟩⟩
+      · rw [derDecodeValue_canon hc (by omega), glue_ok_iff, (derMagnitude_spec hc).2.2.1]
+        exact ⟨fun e => ⟨ht', by omega, hc, e.1, e.2⟩, fun e => ⟨e.2.2.2.1, e.2.2.2.2⟩⟩
       · have : uintRefDecodeValue c c.length = none := by
           cases hv : uintRefDecodeValue c c.length with
           | none => rfl
           | some r => exact absurd ((uintRefDecodeValue_some_iff _ _ _).mp hv).2.2.1 hc
         unfold derDecodeValue
         rw [this]
-        refine ⟨⟨fun e => (by cases e), fun e => absurd e.2.2.1 hc⟩, ⟨fun e => (by cases e), fun e => absurd e.2.2.1 hc⟩⟩
+        exact ⟨fun e => (by cases e), fun e => absurd e.2.2.1 hc⟩
 
 /-- T18.10 `TryFrom<UintRef>` on `UintRef::new(bytes)` (leading zeros stripped by `der`): the value
-    of the octets iff the stripped length fits, a panic iff it does not (never an error below
-    `der`'s 256 MiB limit). -/
+    of the octets iff the stripped length fits, an error iff it does not; never a panic. -/
 theorem der_uintref_iff (n : Nat) (bs a : List Nat) (hl : bs.length ≤ derMaxLen) :
     (derFromUintRefNew n bs = .ok a ↔
       (stripLeadingZeroes bs).length ≤ 8 * n ∧ a = toLimbs n (beVal bs)) ∧
-    (derFromUintRefNew n bs = .panic ↔ 8 * n < (stripLeadingZeroes bs).length) := by
+    (derFromUintRefNew n bs = .err ↔ 8 * n < (stripLeadingZeroes bs).length) ∧
+    derFromUintRefNew n bs ≠ .panic := by
   have := strip_length_le bs
   unfold derFromUintRefNew uintRefNew
   rw [if_pos (by omega)]
   simp only
-  rw [glue_ok_iff, glue_panics_iff, beVal_strip]
-  exact ⟨Iff.rfl, Iff.rfl⟩
+  rw [glue_ok_iff, glue_err_iff, beVal_strip]
+  exact ⟨Iff.rfl, Iff.rfl, glue_never_panics _ _⟩
 
 /-! ## RLP -/
 
-/-- T18.11 the RLP decoder never panics: the glue's `checked_sub` guards the copy (contrast T18.2). -/
+/-- T18.11 the RLP decoder never panics: the glue's `checked_sub` guards the copy. -/
 theorem rlp_never_panics (n : Nat) (bs : List Nat) : rlpDecode n bs ≠ .panic := rlpDecode_no_panic n bs
 
 /-- T18.11' the glue closure (rlp.rs:28-42): accepts iff no leading zero octet and the payload fits;
@@ -429,7 +429,8 @@ example : derFromDer 1 [2, 2, 0, 1] = .err := by decide                -- superf
 example : derFromDer 1 [2, 129, 1, 5] = .err := by decide              -- non-minimal length
 example : derFromDer 1 [2, 1, 5, 0] = .err := by decide                -- trailing octet
 example : derFromDer 1 [2, 2, 5] = .err := by decide                   -- truncated
-example : derSpecFromDer 1 [2, 9, 1, 0, 0, 0, 0, 0, 0, 0, 0] = .err := by decide
+example : derFromDer 1 [2, 9, 0, 255, 255, 255, 255, 255, 255, 255, 255] = .ok [18446744073709551615] := by decide
+example : derFromAny 1 2 [1, 0, 0, 0, 0, 0, 0, 0, 0] = .err := by decide    -- oversize: error, not panic
 example : rlpEncode 1 [128] = [129, 128] := by decide
 example : rlpDecode 1 [129, 128] = .ok [128] := by decide
 example : rlpDecode 1 [129, 5] = .err := by decide                     -- single byte must be its own encoding
